@@ -9,6 +9,7 @@ import (
 	"context"
 	"encoding/json"
 	"fmt"
+	"io"
 	"os"
 	"path/filepath"
 	"sort"
@@ -541,7 +542,9 @@ func c06Run(r *Run, c *Case, rng *Rng, hooks []*c06Hook, events bool) {
 
 	// 3. run
 	op.VerifC06Run(func(q *queue.TaskQueue) {
-		q.ExponentialBackoffFn = func(int) time.Duration { return 3 * time.Millisecond }
+		// the retry delay: long enough for an Event task that was (wrongly) let through after a failed
+		// Synchronization to run in its own queue before the retry finishes
+		q.ExponentialBackoffFn = func(int) time.Duration { return 30 * time.Millisecond }
 		q.WaitLoopCheckInterval = 2 * time.Millisecond
 		q.DelayOnQueueIsEmpty = 5 * time.Millisecond
 		q.DelayOnRepeat = 2 * time.Millisecond
@@ -554,22 +557,60 @@ func c06Run(r *Run, c *Case, rng *Rng, hooks []*c06Hook, events bool) {
 			return
 		}
 		// Secrets appear while the main queue works through the startup tasks: the bindings that watch
-		// them get Events which must not overtake their Synchronization
+		// them get Events which must not overtake their Synchronization. Two sources: a random trickle (at
+		// most 40), and — coupled to the progress of the run, so that it does not depend on the speed of the
+		// machine — one Secret right after every failed startup execution that shows up in the execution log:
+		// a watched object changes during the retry delay of a failed Synchronization.
 		erng := NewRng(rng.U64())
-		for i := 1; i <= 40; i++ { // until the startup tasks are done
+		create := func(name string) {
+			defer func() {
+				if p := recover(); p != nil && os.Getenv("C06_DEBUG") != "" {
+					fmt.Fprintf(os.Stderr, "case %d: creating a Secret panicked: %v\n", c.Idx, p)
+				}
+			}()
+			fc.CreateSimpleNamespaced(ns, "Secret", name)
+		}
+		var off int64
+		newFailures := func() int {
+			f, err := os.Open(logPath)
+			if err != nil {
+				return 0
+			}
+			defer f.Close()
+			if _, err := f.Seek(off, 0); err != nil {
+				return 0
+			}
+			b, _ := io.ReadAll(f)
+			end := strings.LastIndexByte(string(b), '\n')
+			if end < 0 {
+				return 0
+			}
+			off += int64(end + 1)
+			n := 0
+			for _, l := range strings.Split(string(b[:end]), "\n") {
+				if fs := strings.SplitN(l, " ", 3); len(fs) == 3 && fs[1] != "0" {
+					n++
+				}
+			}
+			return n
+		}
+		randomLeft, triggered := 40, 0
+		nextRandom := time.Now().Add(time.Duration(erng.Range(10, 50)) * time.Millisecond)
+		for {
 			select {
 			case <-stopEvents:
 				return
-			case <-time.After(time.Duration(erng.Range(10, 50)) * time.Millisecond):
+			case <-time.After(4 * time.Millisecond):
 			}
-			func() {
-				defer func() {
-					if p := recover(); p != nil && os.Getenv("C06_DEBUG") != "" {
-						fmt.Fprintf(os.Stderr, "case %d: creating a Secret panicked: %v\n", c.Idx, p)
-					}
-				}()
-				fc.CreateSimpleNamespaced(ns, "Secret", fmt.Sprintf("ev%d", i))
-			}()
+			for k := newFailures(); k > 0 && triggered < 80; k-- {
+				triggered++
+				create(fmt.Sprintf("evf%d", triggered))
+			}
+			if randomLeft > 0 && time.Now().After(nextRandom) {
+				create(fmt.Sprintf("ev%d", 41-randomLeft))
+				randomLeft--
+				nextRandom = time.Now().Add(time.Duration(erng.Range(10, 50)) * time.Millisecond)
+			}
 		}
 	}()
 	deadline := time.Now().Add(45 * time.Second)
